@@ -240,6 +240,9 @@ def rule_r24_selection(ctx, prog, rule="R24"):
     if len(ipar) != 1:
         ctx.ob(rule, "get_from_sorted_mut/index-param", False, b.where(), "anchor missing: index parameter", what="anchor missing")
         return
+    from .facts import inline_calls
+    from .rules_zones import helper_filter
+    b = inline_calls(prog, b, helper_filter(prog))
     sp = SelectionProof(prog, b, part.key, {b.key})
     try:
         res = sp.prove(ipar[0])
@@ -330,6 +333,9 @@ def rule_r25_bulk_selection(ctx, prog, rule="R25"):
         ctx.ob(rule, "bulk/recursive-routine", False, "src/sort.rs", "anchor missing: sort::_get_many_from_sorted_mut_unchecked", what="anchor missing")
         return
     part = prog.method("Sort1dExt", "partition_mut")
+    from .facts import inline_calls
+    from .rules_zones import helper_filter
+    b = inline_calls(prog, b, helper_filter(prog))
     bp = BulkProof(prog, b, part.key)
     if None in (bp.p_arr, bp.p_idx, bp.p_val):
         ctx.ob(rule, "bulk/parameters", False, b.where(), "anchor missing: (array view, index slice, value slice) parameters", what="anchor missing")
@@ -387,3 +393,55 @@ def rule_r25_bulk_selection(ctx, prog, rule="R25"):
     ctx.ob(rule, "bulk/wrapper-establishes-shape", ok, w.where(),
            ("the recursive routine is entered with the whole array, a private copy of the (sorted, deduplicated, in-bounds: R12/R5) index list "
             "and one value slot per index") if ok else "not recognised: " + detail, what="bulk precondition")
+
+
+def rule_r18s_selection_converse(ctx, prog, rule="R18s"):
+    """converse of C16 for the two recursive selection routines: with an in-range index (single form) / with the bulk
+    routine's precondition (strictly increasing, in-bounds index list, one slot per index) no path panics.  Collected by
+    the same abstract executions as R24/R25: every place where those proofs continue "because otherwise it would have
+    panicked" (bounds-checked indexing, slicing, split_at_mut, overflow asserts, debug assertions, an empty gen_range,
+    partition_mut's own precondition, the recursive calls' preconditions) must be *entailed* by the state."""
+    from .selection import SelectionProof
+    from .bulkselect import BulkProof
+    part = prog.method("Sort1dExt", "partition_mut")
+    sel = prog.method("Sort1dExt", "get_from_sorted_mut")
+    ipar = [l for l in range(1, sel.arg_count + 1) if "uint:usize" in sel.local_flags(l) and "ref" not in sel.local_flags(l)]
+    from .facts import inline_calls
+    from .rules_zones import helper_filter
+    jobs = []
+    sel = inline_calls(prog, sel, helper_filter(prog))
+    if len(ipar) == 1:
+        sp = SelectionProof(prog, sel, part.key, {sel.key})
+        try:
+            sp.prove(ipar[0], assume_in_range=True)
+            jobs.append(("get_from_sorted_mut", sel, sp.panic_obs, "i < len"))
+        except Exception as ex:
+            ctx.ob(rule, "get_from_sorted_mut/paths", False, sel.where(), "anchor not recognised: %r" % (ex,), what="anchor not recognised")
+    else:
+        ctx.ob(rule, "get_from_sorted_mut/index-param", False, sel.where(), "anchor missing: index parameter", what="anchor missing")
+    bulk = prog.find("sort::_get_many_from_sorted_mut_unchecked", required=False)
+    if bulk is not None:
+        bulk = inline_calls(prog, bulk, helper_filter(prog))
+        bp = BulkProof(prog, bulk, part.key)
+        try:
+            res = bp.prove()
+            if any(not r["ok"] and "postcondition" not in r["why"] and r["why"] for r in res):
+                bad = [r for r in res if not r["ok"]][0]
+                ctx.ob(rule, "bulk/paths", False, bulk.where(), "abstract execution stopped: %s" % bad["why"], what="possible panic for in-range arguments")
+            jobs.append(("bulk", bulk, bp.panic_obs, "indexes strictly increasing, all < len, one value slot per index"))
+        except Exception as ex:
+            ctx.ob(rule, "bulk/paths", False, bulk.where(), "anchor not recognised: %r" % (ex,), what="anchor not recognised")
+    total = 0
+    for name, body, obs, pre in jobs:
+        kinds = {}
+        for kind, ok, detail in obs:
+            cur = kinds.setdefault(kind, [0, []])
+            cur[0] += 1
+            if not ok:
+                cur[1].append(detail)
+        total += len(obs)
+        for kind, (cnt, bad) in sorted(kinds.items()):
+            ctx.ob(rule, "%s/no-panic/%s" % (name, kind), not bad, body.where(),
+                   "under `%s`: all %d %s requirement(s) on the return paths are entailed by the abstract state" % (pre, cnt, kind) if not bad else
+                   "under `%s` a panic is not excluded: %s" % (pre, bad[0]), what="possible panic for in-range arguments")
+    ctx.floor(rule, total, 40, "panic-freedom requirements collected on the selection routines' paths")
